@@ -17,7 +17,7 @@ Proof. exact C15_monotone. Qed.
 
 (* the assert! of GoAway::go_away (and every other assert of the four files and of Recv::go_away) never fires *)
 Theorem C15_no_assert :
-  forall p0 ls, forallb label_ok ls = true -> match crun (init p0) ls with inr (_, SPanic _) => False | _ => True end.
+  forall p0 ls, match crun (init p0) ls with inr (_, SPanic _) => False | _ => True end.
 Proof. exact C15_no_assert. Qed.
 
 Theorem C15_headers_above_max_ignored :
@@ -87,11 +87,34 @@ Theorem C15_shutdown_pong :
       [ORecvMax (r_last s)] FNext.
 Proof. exact C15_shutdown_pong. Qed.
 
-Theorem C15_idle_close :
+(* known finding KF-C15-1 (should_close_on_idle's `!= StreamId::MAX` test): closing when idle is proved except when the final
+   GOAWAY names stream 2^31-1, and refuted in that case *)
+Theorem C15_idle_close_except_known :
   forall s l r,
   is_open s = true -> g_close_now s = false -> g_going s = Some (l, r) -> l <> MAX_ID ->
   cstep s (LIdle false) = lift (ga_go_away_now s (r_last s, NO_ERROR, [])) [] FNext.
-Proof. exact C15_idle_close. Qed.
+Proof. exact C15_idle_close_except_known. Qed.
+
+Theorem C15_idle_close_known_refuted :
+  forall s r hs,
+  is_open s = true -> g_close_now s = false -> g_going s = Some (MAX_ID, r) -> c_error s = None ->
+  cstep s (LIdle hs) = SOk s [] FPending.
+Proof. exact C15_idle_close_known_refuted. Qed.
+
+Theorem C15_known_refuted_run :
+  match crun (init no_params)
+             [ LPollGoAway Ready; LPollPong Ready; LPollPing Ready; LSettingsAck Ready None; LSettingsLocal Ready;
+               LRecv (InHeaders MAX_ID true); LGraceful;
+               LPollGoAway Ready; LPollPong Ready; LPollPing Ready; LSettingsAck Ready None; LSettingsLocal Ready;
+               LRecv (InPing true PING_SHUTDOWN);
+               LPollGoAway Ready; LPollPong Ready; LPollPing Ready; LSettingsAck Ready None; LSettingsLocal Ready;
+               LIdle false ] with
+  | inl (s, tr) =>
+    frames_of tr = [WGoAway MAX_ID NO_ERROR []; WPing false PING_SHUTDOWN; WGoAway MAX_ID NO_ERROR []] /\
+    c_state s = COpen /\ g_close_now s = false /\ snd (last tr (LIdle false, [], FNext)) = FPending
+  | inr _ => False
+  end.
+Proof. exact demo_known_refuted. Qed.
 
 Theorem C15_close_now_closes :
   forall s h l r,
